@@ -200,6 +200,54 @@ def main():
         except Exception as ex:
             out["progs"].append({"n": n, "uses": uses, "grad": [], "ok": False, "error": repr(ex), "order": "".join(kinds)})
         dist("program:k+m=%d" % len(kinds))
+    # programs of a second kind: full-selection indexing (x[:], x[...], x[()]) mixed with ordinary uses and
+    # combined by +, so cotangents flow through identity rules and may be shared between contributions
+    for it in range(cfg["n_progs"]):
+        shape = rng.choice([(3,), (2, 2), (2, 1, 2)])
+        n = int(onp.prod(shape))
+        A = onp.array([float(rng.randint(-3, 3)) for _ in range(n)]).reshape(shape)
+        A.setflags(write=False)
+        W = onp.array([float(rng.randint(1, 3)) for _ in range(n)]).reshape(shape)
+        kinds = [rng.choice(["full-slice", "ellipsis", "dense", "scaled", "square", "full-slice", "empty-tuple", "rev-rev"])
+                 for _ in range(rng.randint(2, 6))]
+        left = rng.random() < 0.5
+
+        def f(a, kinds=kinds, W=W, left=left):
+            ts = []
+            for kd in kinds:
+                if kd == "full-slice":
+                    ts.append(a[:])
+                elif kd == "ellipsis":
+                    ts.append(a[...])
+                elif kd == "empty-tuple":
+                    ts.append(a[()])
+                elif kd == "rev-rev":
+                    ts.append(a[::-1][::-1])
+                elif kd == "dense":
+                    ts.append(a)
+                elif kd == "scaled":
+                    ts.append(a * W)
+                else:
+                    ts.append(a * a)
+            acc = ts[0]
+            for t in ts[1:]:
+                acc = (acc + t) if left else (t + acc)
+            return anp.sum(acc)
+        exp = onp.zeros(shape)
+        for kd in kinds:
+            exp = exp + (W if kd == "scaled" else 2 * A if kd == "square" else onp.ones(shape))
+        try:
+            gr = grad(f)(A)
+            ok = onp.shape(gr) == shape and bool(onp.all(gr == exp))
+            # represent it to the model as dense uses with these weights (identity selection)
+            uses = [{"dense": [int(t) for t in (W if kd == "scaled" else 2 * A if kd == "square" else onp.ones(shape)).ravel()]}
+                    if kd in ("dense", "scaled", "square") else
+                    {"sigma": list(range(n)), "w": [1] * n} for kd in kinds]
+            out["progs"].append({"n": n, "uses": uses, "grad": [int(t) for t in onp.asarray(gr).ravel()], "ok": bool(ok),
+                                 "order": "+".join(kinds)})
+        except Exception as ex:
+            out["progs"].append({"n": n, "uses": [], "grad": [], "ok": False, "error": repr(ex), "order": "+".join(kinds)})
+        dist("program:full-selection-mix")
     print(json.dumps(out))
 
 
